@@ -49,8 +49,12 @@ Proof.
     destruct ((code c <? 32) || (code c =? 127)) eqn:E6.
     { unfold hex2. simpl app.
       assert (Hx := unhex2_hex2 c).
+      assert (Hlt : (code c <? 128) = true).
+      { apply orb_true_iff in E6 as [E6|E6].
+        - apply Nat.ltb_lt in E6. apply Nat.ltb_lt. lia.
+        - apply Nat.eqb_eq in E6. rewrite E6. reflexivity. }
       destruct (quote_cases q Hq); subst q;
-        (cbn -[flat_map app unhex2 hexdigit Nat.div Nat.modulo code]; rewrite Hx, IH; reflexivity). }
+        (cbn -[flat_map app unhex2 hexdigit Nat.div Nat.modulo code Nat.ltb]; rewrite Hx, IH, Hlt; reflexivity). }
     change ([c] ++ flat_map (esc_char q) s ++ q :: rest) with (c :: flat_map (esc_char q) s ++ q :: rest).
     rewrite pstr_plain by assumption. rewrite IH. reflexivity.
 Qed.
